@@ -297,9 +297,10 @@ class ProgramDiff(Prop):
         kw.setdefault('max_steps', self.ref_steps)
         kw.setdefault('max_depth', self.ref_depth)
         kw.setdefault('limit', self.answer_limit)
-        if self.two_readings and uses_findall(clauses):
-            return ref_both_readings(clauses, q, **kw)
-        return run_ref(clauses, q, **kw)
+        r = run_ref(clauses, q, **kw)
+        if 'findall-nonground-instance' in r[2].events:
+            return ('findall-nonground-instance', r[1], r[2])
+        return r
 
     def db_keys(self, it):
         return set(it.facts.keys()) | set(gen.DBPREDS)
@@ -323,8 +324,8 @@ class ProgramDiff(Prop):
             if st == 'unspec':
                 classes.add('query-unspecified')
                 continue
-            if st == 'findall-readings-differ':
-                classes.add('query-findall-readings-differ')
+            if st == 'findall-nonground-instance':
+                classes.add('query-findall-nonground-instance(unspecified)')
                 continue
             if st == 'budget' and not ref:
                 classes.add('unbounded-no-answer')
